@@ -620,6 +620,10 @@ func parseGrpcTimeout(timeout string) (time.Duration, bool) {
 	if timeout == "" {
 		return 0, false
 	}
+	if timeout[0] == '+' || timeout[0] == '-' {
+		// the wire format has no sign, but ParseInt would accept one
+		return 0, false
+	}
 	suffix := timeout[len(timeout)-1]
 
 	val, err := strconv.ParseInt(timeout[:len(timeout)-1], 10, 64)
@@ -647,6 +651,12 @@ func parseGrpcTimeout(timeout string) (time.Duration, bool) {
 	unit := getUnit(suffix)
 	if unit == 0 {
 		return 0, false
+	}
+
+	// saturate rather than wrap around
+	const maxDuration = time.Duration(1<<63 - 1)
+	if time.Duration(val) > maxDuration/unit {
+		return maxDuration, true
 	}
 
 	return time.Duration(val) * unit, true
